@@ -137,7 +137,9 @@ void  vf_cap_set(long lusup, long ucol, long lsub);
 long  vf_cap_default(int which);
 long  vf_cap_calls(void);
 long  vf_events_count(int kind);
-long  vf_layout_checks(void);               /* evaluations of the workspace-layout invariant (guarded hook 5) in this case */
+long  vf_layout_checks(void);
+long  vf_growth_ws(void);                   /* monotonic per thread: ?expand calls completed inside a caller workspace (guarded hook 4) */
+long  vf_growth_sys(void);                  /* monotonic per thread: allocations made by ?expand under library allocation */               /* evaluations of the workspace-layout invariant (guarded hook 5) in this case */
 int   vf_zero_pivot_without_candidate(void);   /* a zero pivot was reported for a column that had no candidate row at all (F6) */
 int   vf_events_first(int kind);            /* first argument of first event of that kind, -1 if none */
 /* abort capture: when armed, vf_abort longjmps are NOT used; the process reports and exits.
